@@ -115,6 +115,10 @@ func RunC03(c *Ctx) error {
 				useTok := !drv.HasLexer || r.Chance(1, 5)
 				job := harness.Job{ID: len(jobs), Kind: "c03", Variant: v.Name, Knob: stackKnobs[r.Intn(len(stackKnobs))], Reuse: si%2 == 1,
 					In: toInput(s, useTok, "valid"), ExpectLog: s.Log, ExpectResult: s.Result}
+				if si%5 == 3 {
+					job.CtxSwap = 1 + r.Intn(3) // actions replace the parser's Context while Parse runs
+				}
+				job.MutateToks = si%7 == 2 // actions modify the tokens they are given
 				n := len(s.Log)
 				if n <= maxFaults {
 					for k := 1; k <= n; k++ {
